@@ -5,7 +5,7 @@ PROPERTY = "C02"
 
 
 def tasks(tier):
-    return ((contract_tasks("contracts.scheduler", "C02", tier=tier) + contract_tasks("contracts.sim_process", "C02", tier=tier)
+    return (contract_tasks("contracts.world_connect", "C02") + (contract_tasks("contracts.scheduler", "C02", tier=tier) + contract_tasks("contracts.sim_process", "C02", tier=tier)
             + contract_tasks("contracts.progress", "C02", tier=tier) + lemma_tasks("contracts.progress", "C02"))
             # (which outputs trigger whom, with which delay: the tables connect_one builds, served under C11)
             + contract_tasks("contracts.connect", "C11", tier=tier)
